@@ -124,7 +124,7 @@ Theorem lang_match_results expr it vals names :
   end.
 Proof.
   unfold lang_match. destruct (parse_cond expr) as [[ast n]|]; auto.
-  destruct (negb (n =? 0)); auto. destruct (add_attributes [] it); auto. destruct (add_attributes f vals); auto.
+  destruct (negb (n =? 0)); auto. destruct (mem [] names); auto. destruct (add_attributes [] it); auto. destruct (add_attributes f vals); auto.
   destruct (eval_conditional _ ast); auto.
 Qed.
 
@@ -167,7 +167,7 @@ Theorem lang_match_total expr it vals names :
   lang_match expr it vals names = Err Unsupported.
 Proof.
   unfold lang_match. destruct (parse_cond_total expr) as [ast [k ->]].
-  destruct (negb (k =? 0)); auto. destruct (add_attributes [] it); auto. destruct (add_attributes f vals); auto.
+  destruct (negb (k =? 0)); auto. destruct (mem [] names); eauto. destruct (add_attributes [] it); auto. destruct (add_attributes f vals); auto.
   destruct (eval_conditional _ ast); eauto.
 Qed.
 
